@@ -10,6 +10,7 @@ from __future__ import annotations
 
 from props.simcommon import base_out, replay_case, run_panel, sim_cases
 
+CANARY = True
 RULE = ("cases = generated dyadic specifications (bias: stochastic states with shuffled dependency lists incl. _period, rows with "
         "zeros and point masses, period-dependent transitions, parameters in transition functions) x batches; distinct = structural "
         "signature; evaluations = agent-period pairs whose next states were checked")
